@@ -259,6 +259,26 @@ def unknown_chars(P, R):
         R.ob('C16.GRD.1', ok, st[0] if st else f, '%s reports success only when the whole text was consumed' % name, key='whole-text:%s' % name, nontrivial=False)
 
 
+def typed_text(P, R, rule='C16.GRD.5'):
+    """A typed setting delivers the value written: the text handed to each typed parser is the node's own value - not
+    the default or any other text substituted when the written one does not parse (that would replace the value in
+    force instead of leaving it)."""
+    sv = P.need_fn('conf_parse_string_value')
+    n = 0
+    for s in sv.sites():
+        cr = s.ev.get('rhs') if s.ev['k'] == 'store' else None
+        if not (isinstance(cr, dict) and cr.get('k') == 'callref' and (cr.get('callee') or '').startswith('conf_parse_') and cr.get('args')):
+            continue
+        a = cr['args'][0]
+        ok = is_field(a, 'value')
+        if not ok and is_var(a):
+            defs = [d for d in sv.local_defs(a['name']) if (d.ev.get('rhs') if d.ev['k'] == 'store' else d.ev.get('init')) is not None]
+            ok = bool(defs) and all(is_field(d.ev.get('rhs') if d.ev['k'] == 'store' else d.ev.get('init'), 'value') for d in defs)
+        n += 1
+        R.ob(rule, ok, s, '%s is given the node\'s own value (%s)' % (cr['callee'], sx(a)), key='typed-text:%s' % cr['callee'])
+    R.floor(rule, 4)
+
+
 def parsed_on_success(P, R):
     sv = P.need_fn('conf_parse_string_value')
     cps = [s for s in sv.calls('memcpy') if on_path(s.ev['args'][0], 'parsed')]
@@ -393,8 +413,51 @@ def token_alphabet(P, R, rule='C16.TAB.4'):
                 for v in (e.vs or []):
                     if isinstance(v, int) and 0 < v < 128 and not chr(v).isalnum() and name != 'conf_parse_string':
                         delims.add(chr(v))
-    both = sorted(set(alpha) & delims)
-    R.ob(rule, not both, site, 'the bare-word alphabet shares no character with the syntax characters %s (shared: %s)' % (''.join(sorted(delims - {chr(10), chr(13), chr(9)})), both), key='token-alphabet')
+    # the characters actually marked in the table: fold the index expressions of the marking loop over the literals
+    def fold(e, env):
+        if not isinstance(e, dict):
+            return None
+        c = const_of(e)
+        if isinstance(c, int):
+            return c
+        k = e.get('k')
+        if k == 'idx' and is_var(e.get('base')) and e['base']['name'] in env:
+            return env[e['base']['name']]
+        if k == 'callref' and e.get('callee') in ('toupper', 'tolower') and e.get('args'):
+            v = fold(e['args'][0], env)
+            if v is None:
+                return None
+            ch = chr(v & 255)
+            return ord(ch.upper() if e['callee'] == 'toupper' else ch.lower()) if ch.isascii() and ch.isalpha() else v
+        if k == 'un' and e.get('op') == '~':
+            v = fold(e['e'], env)
+            return None if v is None else ~v
+        if k == 'bin' and e.get('op') in ('&', '|', '^', '+', '-'):
+            a, b = fold(e['l'], env), fold(e['r'], env)
+            if a is None or b is None:
+                return None
+            return {'&': a & b, '|': a | b, '^': a ^ b, '+': a + b, '-': a - b}[e['op']]
+        return None
+    lits = {s.ev['var']: s.ev['init']['v'] for s in ci.sites() if s.ev['k'] == 'decl' and s.ev.get('static') and (s.ev.get('init') or {}).get('k') == 'str'}
+    marked = set()
+    undecided = []
+    for s in ci.stores():
+        lhs = s.ev.get('lhs') or {}
+        if s.ev['k'] == 'store' and lhs.get('k') == 'idx' and is_var(lhs.get('base'), 'char_types'):
+            used = [v for v in lits if any(is_var(x.get('base'), v) for x in walk(lhs['index']) if x.get('k') == 'idx')]
+            if not used:
+                undecided.append(s)
+                continue
+            for ch in lits[used[0]]:
+                v = fold(lhs['index'], {used[0]: ord(ch)})
+                if v is None:
+                    undecided.append(s)
+                    break
+                marked.add(chr(v & 255))
+    R.ob(rule, not undecided, undecided[0] if undecided else site, 'the character table is filled from the literal alphabets through foldable index expressions', key='table-foldable', nontrivial=False)
+    forbidden = delims | {chr(10), chr(13), chr(9), ' ', chr(0)}
+    both = sorted((set(alpha) | marked) & forbidden)
+    R.ob(rule, not both, site, 'the bare-word alphabet (%d characters marked in the table) shares no character with the syntax characters %s or with white space (shared: %s)' % (len(marked), ''.join(sorted(delims - {chr(10), chr(13), chr(9)})), [repr(c) for c in both]), key='token-alphabet')
     R.ob(rule, len(delims) >= 8, site, 'syntax characters were found in the parser (%d)' % len(delims), key='delims-found', nontrivial=False)
 
 
@@ -435,6 +498,7 @@ def run(P, R, tier):
     unit_tables(P, R)
     unknown_chars(P, R)
     parsed_on_success(P, R)
+    typed_text(P, R)
     duplicates(P, R)
     ws = P.need_fn('conf_parse_whitespace')
     scanner_typestate(ws, lambda e: is_field(e, 'curr', 'conf_parse'), 'C16.BND.1', R, 'whitespace/comment skipper')
